@@ -111,8 +111,9 @@ func VerifC12_SyncFaults() {
 	}
 	requeued := s.pc.Queue.Count("add-rate-limited")
 	forgot := s.pc.Queue.Count("forget")
-	rt.Observe("requeued", requeued)
-	rt.Observe("verb-hit", hit.Verb+"/"+hit.Resource)
+	// (which child write sits at a given position depends on map iteration order:
+	// nothing order-dependent is observed for the engine/native cross-check)
+	rt.Observe("requeued+forgot", requeued+forgot)
 	if benign {
 		rt.Cover("benign-fault-tolerated")
 		rt.Assert(requeued == 0, "benign/"+hit.Verb+"-"+hit.Resource+"/reported-as-error")
